@@ -101,10 +101,38 @@ func genC17(t *rapid.T) c17Scen {
 		if ch.Op == "unsub" {
 			ch.Pick = rapid.IntRange(0, 5).Draw(t, "pick")
 		}
+		if ch.Op == "sub" && ch.Sub.Group == "" && rapid.Bool().Draw(t, "aimed") {
+			// aimed at a topic that was published in the first round: its route must follow the change. The filter
+			// is the topic itself, the topic with its last level replaced by '+', or the topic as the PARENT of '/#'
+			p := rapid.SampledFrom(s.Pubs1).Draw(t, "of")
+			forms := []string{p.Topic, p.Topic + "/#"}
+			if k := lastSlash(p.Topic); k >= 0 {
+				forms = append(forms, p.Topic[:k+1]+"+")
+			} else if p.Topic[0] != '$' {
+				forms = append(forms, "+")
+			}
+			ch.Sub.Filter = rapid.SampledFrom(forms).Draw(t, "form")
+		}
 		s.Changes = append(s.Changes, ch)
 	}
 	s.Pubs2 = genC17Pubs(t, s.Nodes, 2, 6)
+	for i := range s.Pubs2 {
+		// half of the second round repeats a publish of the first round (same origin, same topic)
+		if rapid.Bool().Draw(t, "repeat") {
+			p := rapid.SampledFrom(s.Pubs1).Draw(t, "rep")
+			s.Pubs2[i].Node, s.Pubs2[i].Topic = p.Node, p.Topic
+		}
+	}
 	return s
+}
+
+func lastSlash(s string) int {
+	for i := len(s) - 1; i >= 0; i-- {
+		if s[i] == '/' {
+			return i
+		}
+	}
+	return -1
 }
 
 // background stops of finished clusters (serf leave takes seconds); waited for at the end of
